@@ -352,3 +352,26 @@ fragment_consensus = Contract(
     assumptions=['get_consensus_dictionaries and pick_best_base_call through recording stubs (their own units above)'],
 )
 UNITS.append(fragment_consensus)
+
+
+# one mate without any call (single-end fragment, unmapped or fully clipped mate): every call still goes through
+# pick_best_base_call, so that the molecule receives (base, quality) pairs of the same shape
+def fc_setup_single(which):
+    def setup(eng):
+        fc_setup(eng)
+        r1 = dict(eng.spec_env['R1C']) if which == 1 else {}
+        r2 = dict(eng.spec_env['R2C']) if which == 2 else {}
+        for q in ('singlecellmultiomics.utils.sequtils.get_consensus_dictionaries', 'singlecellmultiomics.fragment.fragment.get_consensus_dictionaries'):
+            eng.loader.call_hooks[q] = lambda e, f, a, k, n: (dict(r1), dict(r2))
+    return setup
+
+
+import copy as _copy13      # noqa: E402
+for _w, _spec in ((1, 'sorted(list(result.keys())) == [10, 11] and result[10] == ("best of", R1C[10], None) and result[11] == ("best of", R1C[11], None)'),
+                  (2, 'sorted(list(result.keys())) == [11, 12] and result[11] == ("best of", None, R2C[11]) and result[12] == ("best of", None, R2C[12])')):
+    _u = _copy13.copy(fragment_consensus)
+    _u.name = 'Fragment.get_consensus[only mate %d has calls]' % _w
+    _u.setup = fc_setup_single(_w)
+    _u.ensures = {'every_call_of_the_only_mate_goes_through_the_same_selection': _spec}
+    _u.bounded = 'mate %d covers two positions, the other mate none' % _w
+    UNITS.append(_u)
